@@ -85,6 +85,10 @@ def event (op : Op) (impl : String) : LeaseSpec.Ev :=
 def clause (c : Cfg) (units : Nat) (mon : LeaseSpec.Mon) (ev : LeaseSpec.Ev) (v : String) : String :=
   let gb := c.graceB
   let live := mon.mon.length
+  -- KF-epoch-tiny: the reported total is exactly the wrapped `totalIPs - 2`
+  let wrapped := match ev with
+    | .stats _ tot => tot == 18446744073709551615
+    | _ => false
   let ghosts := mon.ghost.length
   -- dropped early by the truncated grace period
   let early := fun (k : Nat) => decide ((AMap.lookup mon.renewed k).getD 0 + gb < mon.epoch)
@@ -96,7 +100,7 @@ def clause (c : Cfg) (units : Nat) (mon : LeaseSpec.Mon) (ev : LeaseSpec.Ev) (v 
       | .stats al _ => if ghosts > 0 ∧ al = live + ghosts then "D20" else "none"
       | _ => "none"
     else if v == "exhaustion" then (if ghosts > 0 ∧ live + ghosts ≥ units then "D20" else "none")
-    else if c.total < 2 ∧ v == "total" then "KF-epoch-tiny"
+    else if c.total < 2 ∧ v == "total" ∧ wrapped = true then "KF-epoch-tiny"
     else "none"
   else if c.grace ≥ 3 ∧ gb < 3 then
     if v == "reclaimed" then
@@ -122,9 +126,9 @@ def clause (c : Cfg) (units : Nat) (mon : LeaseSpec.Mon) (ev : LeaseSpec.Ev) (v 
       match ev with
       | .got k _ => if early k then "D20" else "none"
       | _ => "none"
-    else if c.total < 2 ∧ v == "total" then "KF-epoch-tiny"
+    else if c.total < 2 ∧ v == "total" ∧ wrapped = true then "KF-epoch-tiny"
     else "none"
-  else if c.total < 2 ∧ v == "total" then "KF-epoch-tiny"
+  else if c.total < 2 ∧ v == "total" ∧ wrapped = true then "KF-epoch-tiny"
   else "none"
 
 def step (st : St) (toks : List String) (impl : String) : St × LineResult :=
